@@ -160,6 +160,19 @@ def _one_request(w, ch, cfg):
     dev = w.device
     if not hasattr(w, "earlier_headers"):
         w.earlier_headers = []
+    if ch.draw(6, "refused-request-first") == 1:
+        # history: a request the manager has to refuse came first (a header whose coinbase field is
+        # hostile: midstate byte counter at the extremes, odd tail lengths); whatever it answered, the
+        # request judged next is relayed on its own terms
+        h = rsk.gen_header(ch, nfields=ch.pick([19, 20], "poison.nf"), max_cb=100)
+        counter = ch.pick([b"\xff" * 8, b"\x20" + b"\x00" * 7, b"\x80" + b"\x00" * 7,
+                           ch.bytes(8, "poison.counter")], "poison.counter.kind")
+        h["fields"][-1] = counter + ch.bytes(ch.pick([33, 45, 95, 200, 32, 64], "poison.tail.n"),
+                                             "poison.tail")
+        dev.expect = None
+        w.request({"command": "advanceBlockchain", "blocks": [rsk.rlp_list(h["fields"])[0].hex()],
+                   "brothers": [[]], "version": 5})
+        del dev.violations[:]
     req, exp, info = gen_blocks_request(ch, cfg, earlier=w.earlier_headers)
     ancestor, nblocks, nfset = info["ancestor"], info["nblocks"], info["nfset"]
     nbro_total, ask, stopclass, tiny = info["nbro_total"], info["ask"], info["stopclass"], info["tiny"]
